@@ -22,7 +22,7 @@ static uint32_t t_rb_random(void) { return (uint32_t) vrng_u64(&rng); }
 static const char *t_rb_name(void) { return "verif-taint"; }
 static randombytes_implementation t_rb_impl = { t_rb_name, t_rb_random, NULL, NULL, t_rb_buf, NULL };
 
-#define MAXL 4200
+#define MAXL (1048576 + 4200)
 static unsigned char M[MAXL + 64], C[MAXL + 128], C2[MAXL + 128], K[64], N[32], AD[64], PK[32], SK[64], Q[64], T[64], SIG[64], S1[64], S2[64];
 static unsigned char *fresh(unsigned char *p, size_t n) { vrng_bytes(&rng, p, n); PUBLIC(p, n); return p; }
 static volatile int sink;
